@@ -255,17 +255,13 @@ DEFINE_RE = re.compile(r'^\s*#\s*define\s+(\w+)(\(([^)]*)\))?(.*)$', re.M)
 
 def c10_accepts_invalid(text):
     """definitions that violate a constraint cproc does not check (noted for C10, not judged here):
-    duplicate parameter names, a parameter called __VA_ARGS__, __VA_ARGS__ as the FIRST token of a replacement list"""
+    duplicate parameter names, a parameter called __VA_ARGS__"""
     for m in DEFINE_RE.finditer(text):
         params = m.group(3)
         if m.group(2) is not None:
             ps = [x.strip() for x in params.split(',')] if params.strip() else []
             if len(set(ps)) != len(ps) or '__VA_ARGS__' in ps:
                 return True
-            if m.group(4).strip().startswith('__VA_ARGS__') and '...' not in ps:
-                return True
-        elif m.group(4).strip().startswith('__VA_ARGS__'):
-            return True
     return False
 
 
@@ -467,6 +463,8 @@ REGRESSION = [
     ('stringize: white space after the last token is deleted', '#define s(x) #x\ns(a\n)\ns( a  b\n\n)\n', None),
     ('zero-parameter invocation with a new-line between the parentheses', '#define h() 1\nh(\n) h( ) h()\n', '1 _1 _1 \\n'),
     ('extra empty argument is a constraint violation', '#define f(x) x\nf(1,)\n', None),
+    ('__VA_ARGS__ as first replacement token of a non-variadic macro', '#define M(a) __VA_ARGS__\nM(1)\n', None),
+    ('__VA_ARGS__ as first replacement token of an object-like macro', '#define X __VA_ARGS__\nX\n', None),
     ('6.10.3.5 example 3 (without ##)', '#define x 3\n#define f(a) f(x * (a))\n#undef x\n#define x 2\n#define g f\n#define z z[0]\n#define h g(~\n#define m(a) a(w)\n#define w 0,1\n#define t(a) a\n#define p() int\n#define q(x) x\n#define r(x,y) x ## y\n', None),
     ('6.10.3.5 example 3 text', '#define x 3\n#define f(a) f(x * (a))\n#undef x\n#define x 2\n#define g f\n#define z z[0]\n#define h g(~\n#define m(a) a(w)\n#define w 0,1\n#define t(a) a\n#define p() int\n#define q(x) x\nf(y+1) + f(f(z)) % t(t(g)(0) + t)(1);\ng(x+(3,4)-w) | h 5) & m\n(f)^m(m);\np() i[q()] = { q(1), 23, 4, 5, };\n',
      'f! ( 2 _* _( y! + 1 ) ) _+ _f! ( 2 _* _( f! ( 2 _* _( z! [ 0 ] ) ) ) ) _% _f! ( 2 _* _( 0 ) ) _+ _t! ( 1 ) ; \\n f! ( 2 _* _( 2 + ( 3 , 4 ) - 0 , 1 ) ) _| _f! ( 2 _* _( ~ _5 ) ) _& _f! ( 2 _* _( 0 , 1 ) ) ^ m! ( 0 , 1 ) ; \\n int! _i! [ ] _= _{ _1 , _23 , _4 , _5 , _} ; \\n'),
